@@ -25,6 +25,10 @@ class SplitV(Value):
         self.s, self.sep = s, sep
 
 
+def is_inline_callbacks(fnode):
+    return any(ast.unparse(d).endswith("inlineCallbacks") for d in getattr(fnode, "decorator_list", []))
+
+
 class ItemsV(Value):
     """dict.items() / .keys() / .values() view, possibly sorted"""
     def __init__(self, dictval, what, sorted_=False):
@@ -538,6 +542,8 @@ class Calls(Interp):
             self.st.frames.pop()
 
     def is_generator(self, fnode):
+        if is_inline_callbacks(fnode):
+            return False        # @defer.inlineCallbacks: a sequential coroutine -- `yield d` awaits d (see ev_Yield)
         for n in ast.walk(fnode):
             if isinstance(n, (ast.Yield, ast.YieldFrom)):
                 return True
@@ -1976,6 +1982,8 @@ class Calls(Interp):
         return PMap(self.as_map(args[0], node))
 
     def sp_elems(self, args, kwargs, node):
+        if isinstance(args[0], TupV):
+            return PSeq(so.seq_of([self.to_term(x, node) for x in args[0].items]))
         return PSeq(Val.elems(args[0].term))
 
     def sp_concat(self, args, kwargs, node):
